@@ -1,0 +1,33 @@
+//go:build verif
+
+// Contracts for the deductive verification machinery kept in /verif (govc).
+// Comment-only file, compiled only under the build tag "verif".
+package internal
+
+// ---- C07: discovery of candidate interfaces --------------------------------------------
+
+// Exactly the type specs whose type expression is an interface type or a generic
+// instantiation are recorded, in visiting order; function bodies are not entered, so
+// function-local types are never candidates.
+//@ func (*NodeVisitor).Visit props=C07,C02
+//@   let isTS = dyn(node) == tagof(*ast.TypeSpec)
+//@   let ts = unbox(*ast.TypeSpec, node)
+//@   let okKind = dyn(ts.Type) == tagof(*ast.InterfaceType) || dyn(ts.Type) == tagof(*ast.IndexExpr) || dyn(ts.Type) == tagof(*ast.IndexListExpr)
+//@   let n0 = old(len(nv.declaredInterfaces))
+//@   ensures#added isTS && okKind ==> len(nv.declaredInterfaces) == n0 + 1 && nv.declaredInterfaces[n0] == ts.Name.Name
+//@   ensures#prefix isTS && okKind ==> (forall i int :: 0 <= i && i < n0 ==> nv.declaredInterfaces[i] == old(nv.declaredInterfaces[i]))
+//@   ensures#other !(isTS && okKind) ==> nv.declaredInterfaces == old(nv.declaredInterfaces)
+//@   ensures#nolocal (dyn(node) == tagof(*ast.FuncDecl) || dyn(node) == tagof(*ast.FuncLit)) ==> result == nil
+//@   assigns nv.declaredInterfaces
+
+// Assumed shape of go/packages results (listed in the evidence): one syntax tree per Go file.
+//@ axiom loader_syntax: forall p *packages.Package :: len(p.Syntax) == len(p.GoFiles)
+
+// Only package-level, named interface types that belong to a package become candidates, each
+// with its declared name, file and package; the result of Lookup is checked before use; a
+// package with load errors (and Go files) makes the whole parse fail.
+//@ func (*Parser).ParsePackages props=C07,C09,C02
+//@   site NewInterface: obj != nil && types.IsInterface(obj.Type()) && dyn(obj.Type()) == tagof(*types.Named) && typ.Obj().Pkg() != nil
+//@   site#args NewInterface: $0 == typ.Obj().Name() && $1 == file && $2 == fileSyntax && $3 == pkg && $4 == nil
+//@   returns#loaderrors err == nil ==> (forall j int :: 0 <= j && j < len(packages) && len(packages[j].GoFiles) != 0 ==> len(packages[j].Errors) == 0)
+//@   loop 0: invariant forall j int :: 0 <= j && j < $i && len(packages[j].GoFiles) != 0 ==> len(packages[j].Errors) == 0
